@@ -1,5 +1,8 @@
 """C02 -- an 'invalid' verdict comes with a genuine countermodel.
 
+Pipeline C: TLC explores all schedules of the modal (TableauModalMC.tla) and of the first-order calculus
+(TableauFOMC.tla) with the rule tables extracted from the real rule objects: completed => saturated, the
+structure read off an open branch satisfies it, the terminal verdict is the one the real prover reports.
 Pipeline A: the shared corpus is proved with is_build_models=True in all 57
 logics; for every completed invalid tableau the structures built for its open
 branches are exported through public attributes and TLC (C02_Models.tla)
@@ -79,6 +82,10 @@ def run(rep):
     # and the structure read off every open branch satisfies the branch
     mlogics = ['K', 'D', 'T', 'S4', 'S5', 'KFDE', 'TK3', 'S4LP'] + (['KK3WQ', 'S5G3', 'TL3', 'S4GO', 'KB3E', 'S5RM3'] if thorough else [])
     tableaumc.run_modal(rep, mlogics, d, 'c02', maxw=3, full=thorough)
+    # ... and of the first-order calculus (fresh witnesses, universal instantiation, the constant limit), whose
+    # terminal verdict must also be the one the real prover reports
+    flogics = tableaumc.FO_LOGICS if thorough else ['CFOL', 'FDE', 'K3', 'LP', 'K3W', 'K3WQ', 'GO', 'MH', 'NH']
+    tableaumc.run_fo(rep, flogics, d, 'c02', full=thorough)
     cases, stats = record_cases(rep, 'c02', 150 if thorough else 24, 8 if thorough else 2)
     validate(rep, cases, d, 'c02')
     rep.cov.update(stats)
